@@ -152,6 +152,11 @@ pub async fn start_tls_server(self_signed: bool, min13: bool, authz: bool, filte
 
 /// `expected_peer`: in self-signed mode, the fixture name of the one client certificate the server accepts
 pub async fn start_tls_server_expecting(self_signed: bool, min13: bool, authz: bool, filter: AddressFilter, expected_peer: &str) -> Result<TlsServer, String> {
+    start_tls_server_bound("127.0.0.1:0", self_signed, min13, authz, filter, expected_peer).await
+}
+
+/// the same server listening on `bind` (e.g. "[::1]:0")
+pub async fn start_tls_server_bound(bind: &str, self_signed: bool, min13: bool, authz: bool, filter: AddressFilter, expected_peer: &str) -> Result<TlsServer, String> {
     let (peer, local, key) = if self_signed {
         (fixture(&format!("{expected_peer}.cert.pem")), fixture("ss_server.cert.pem"), fixture("ss_server.key.pem"))
     } else {
@@ -169,7 +174,7 @@ pub async fn start_tls_server_expecting(self_signed: bool, min13: bool, authz: b
     let writes = Arc::new(Mutex::new(vec![]));
     let roles = Arc::new(Mutex::new(vec![]));
     let map = ServerHandlerMap::single(UnitId::new(1), Recording { writes: writes.clone() }.wrap());
-    let listener = tokio::net::TcpListener::bind("127.0.0.1:0").await.map_err(|e| e.to_string())?;
+    let listener = tokio::net::TcpListener::bind(bind).await.map_err(|e| e.to_string())?;
     let addr = listener.local_addr().unwrap();
     let (handle, task) = if authz {
         create_tls_server_task_with_authz(8, listener, map, Arc::new(RoleRecorder { roles: roles.clone() }), cfg, filter, DecodeLevel::nothing())
@@ -292,6 +297,74 @@ pub fn c16_tls(args: &Args, rt: &tokio::runtime::Runtime, ev: &mut Evidence) {
     for e in results {
         ev.merge(e);
     }
+    // an IPv6 peer (::1) against TLS and TLS+authz servers listening on ::1
+    let v6 = IpAddr::V6(std::net::Ipv6Addr::LOCALHOST);
+    let filters = vec![
+        F::Wildcard([None, None, None, None]),
+        F::Wildcard([Some(127), None, None, None]),
+        F::Exact(IpAddr::V4(Ipv4Addr::LOCALHOST)),
+        F::Exact(v6),
+        F::AnyOf(vec![IpAddr::V4(Ipv4Addr::new(127, 0, 0, 9)), v6]),
+        F::AnyOf(vec![IpAddr::V4(Ipv4Addr::new(127, 0, 0, 9)), IpAddr::V6(std::net::Ipv6Addr::new(0, 0, 0, 0, 0, 0, 0, 2))]),
+        F::Any,
+    ];
+    let results = rt.block_on(async {
+        let mut hs = vec![];
+        for f in filters {
+            for authz in [false, true] {
+                let f = f.clone();
+                hs.push(tokio::spawn(async move {
+                    let mut ev = Evidence::new();
+                    let Some(filter) = crate::c16::to_rodbus(&f) else { return ev };
+                    let srv = match start_tls_server_bound("[::1]:0", false, false, authz, filter, "ss_client").await {
+                        Ok(s) => s,
+                        Err(_) => {
+                            ev.count("ipv6_loopback_unavailable", 1);
+                            return ev;
+                        }
+                    };
+                    let variant = if authz { "tls_authz" } else { "tls" };
+                    let want = f.matches(v6);
+                    let raw = run_peer(vec![s("raw"), s("--host"), s("::1"), s("--port"), srv.addr.port().to_string(), s("--wait"), s("0.7")]).await;
+                    let tls = run_peer(vec![
+                        s("client"), s("--host"), s("::1"), s("--port"), srv.addr.port().to_string(),
+                        s("--ca"), p(fixture("ca1.cert.pem")), s("--cert"), p(fixture("client_operator.cert.pem")), s("--key"), p(fixture("client_operator.key.pem")),
+                        s("--servername"), s("test.server"), s("--send"), write_req_hex(), s("--wait"), s("2"),
+                    ]).await;
+                    if raw["error"].as_str().map(|e| e.starts_with("connect")).unwrap_or(false) {
+                        ev.count("ipv6_loopback_unavailable", 1);
+                        return ev;
+                    }
+                    ev.eval();
+                    ev.count("tls_connections_observed", 2);
+                    ev.count("tls_ipv6_connections_observed", 2);
+                    let raw_end = raw["read_end"].as_str().unwrap_or("?").to_string();
+                    let raw_bytes = raw["reply_hex"].as_str().unwrap_or("").len() / 2;
+                    let served = is_modbus_reply(&tls);
+                    ev.class(format!("{variant}|rust_api|{}|v6|{}", f.class(), if want { "match" } else { "no_match" }));
+                    let rep = json!({"filter": format!("{f:?}"), "source": "::1", "variant": variant, "raw": raw, "tls": tls});
+                    if want && (!served || raw_end == "eof") {
+                        ev.violation(format!("{variant}:rust_api:{}:v6:matching_peer_not_served", f.class()), format!("filter {f:?} matches ::1 but the TLS peer got no Modbus reply (plain connection ended with {raw_end})"), rep.clone());
+                    } else if !want && (served || !(raw_end == "eof" && raw_bytes == 0)) {
+                        ev.violation(format!("{variant}:rust_api:{}:v6:non_matching_peer_{}", f.class(), if served { "served" } else { "not_closed_silently" }), format!("filter {f:?} does not match ::1: served={served}, plain connection end={raw_end} bytes={raw_bytes}"), rep.clone());
+                    }
+                    drop(srv.handle);
+                    let _ = tokio::time::timeout(Duration::from_secs(5), srv.task).await;
+                    ev
+                }));
+            }
+        }
+        let mut out = vec![];
+        for h in hs {
+            if let Ok(e) = h.await {
+                out.push(e);
+            }
+        }
+        out
+    });
+    for e in results {
+        ev.merge(e);
+    }
 }
 
 // ------------------------------------------------------------------------------------------
@@ -342,7 +415,17 @@ async fn cell_server(min13: bool, self_signed: bool, authz: bool, offer: (&'stat
     let mut ev = Evidence::new();
     // in self-signed mode the two-role certificate is the configured (byte-identical) one, so that only
     // the role extraction can refuse it
-    let expected_peer = if cert == Cert::TwoRoles { "ss_client_tworoles" } else { "ss_client" };
+    // ... and likewise for the validity and role cells: the server is configured with the very certificate
+    // the peer presents, so that what is wrong with it is its validity period / its role, not its identity
+    // ("a byte-identical match of the configured self-signed certificate, within its validity period")
+    let expected_peer = match cert {
+        Cert::TwoRoles => "ss_client_tworoles",
+        Cert::Expired => "ss_client_expired",
+        Cert::NotYetValid => "ss_client_not_yet",
+        Cert::RoleLess => "ss_client_norole",
+        Cert::OtherRole => "ss_client_viewer",
+        _ => "ss_client",
+    };
     let srv = match start_tls_server_expecting(self_signed, min13, authz, AddressFilter::Any, expected_peer).await {
         Ok(s) => s,
         Err(e) => {
@@ -367,7 +450,7 @@ async fn cell_server(min13: bool, self_signed: bool, authz: bool, offer: (&'stat
         (false, Cert::NotYetValid) => ("client_not_yet", "client_not_yet"),
         (true, Cert::Valid) => ("ss_client", "ss_client"),
         (true, Cert::WrongAuthority) => ("ss_client_other", "ss_client_other"),
-        // the server is configured with ss_client; anything else is simply a different certificate
+        // (WrongAuthority: the server is configured with ss_client and the peer presents another certificate)
         (true, Cert::OtherRole) => ("ss_client_viewer", "ss_client_viewer"),
         (true, Cert::RoleLess) => ("ss_client_norole", "ss_client_norole"),
         (true, Cert::Expired) => ("ss_client_expired", "ss_client_expired"),
@@ -401,7 +484,8 @@ async fn cell_server(min13: bool, self_signed: bool, authz: bool, offer: (&'stat
         // without an authorization handler the role is never looked at; with one, "exactly the single
         // role extension" means none and two are both refused
         (false, Cert::RoleLess) | (false, Cert::TwoRoles) | (false, Cert::TwoRolesSame) | (true, Cert::TwoRoles) => !authz,
-        (true, Cert::Valid) => true,
+        (true, Cert::Valid) | (true, Cert::OtherRole) => true,
+        (true, Cert::RoleLess) => !authz,
         _ => false,
     };
     let admit = offers_ok && cert_ok;
